@@ -123,3 +123,47 @@ func vh_row_data_types() {
 		vAssert(err != nil || len(ms) == 1, "C05/rows/generic-consumer-reports-a-row-or-an-error")
 	}
 }
+
+// (3) Schema tables turned into keyspace metadata (compileMetadata, protocol >= 2 path): what the
+// rows of system_schema.tables / columns / functions / aggregates say is data from the server. One
+// table, 0..2 columns of any kind with a position of -1..2, 0..1 function, 0..1 aggregate whose
+// state / final function names may name that function, another one, or nothing (FINALFUNC is
+// optional in CREATE AGGREGATE). No panic in the goroutine asking for the metadata.
+func vh_compile_metadata() {
+	ks := &KeyspaceMetadata{Name: "ks"}
+	tables := []TableMetadata{{Keyspace: "ks", Name: "t"}}
+	if vBool("cassandra_2_key_validator") {
+		tables[0].KeyValidator = []string{"org.apache.cassandra.db.marshal.Int32Type", "org.apache.cassandra.db.marshal.CompositeType(org.apache.cassandra.db.marshal.Int32Type,org.apache.cassandra.db.marshal.UTF8Type)"}[vChoose("key_validator", 2)]
+	}
+	var columns []ColumnMetadata
+	names := []string{"a", "b"}
+	for i, n := 0, vChoose("columns", 3); i < n; i++ {
+		c := ColumnMetadata{Keyspace: "ks", Table: "t", Name: names[i], ClusteringOrder: "none", Validator: "int"}
+		c.Kind = []ColumnKind{ColumnPartitionKey, ColumnClusteringKey, ColumnRegular}[vChoose("kind", 3)]
+		c.ComponentIndex = vChoose("position", 3) - 1
+		if i == 0 && vBool("other_table") {
+			c.Table = "gone"
+		}
+		columns = append(columns, c)
+	}
+	var functions []FunctionMetadata
+	if vBool("has_function") {
+		functions = append(functions, FunctionMetadata{Keyspace: "ks", Name: "f"})
+	}
+	var aggregates []AggregateMetadata
+	if vBool("has_aggregate") {
+		fn := []string{"f", "g", ""}
+		aggregates = append(aggregates, AggregateMetadata{Keyspace: "ks", Name: "agg", stateFunc: fn[vChoose("state_func", 2)], finalFunc: fn[vChoose("final_func", 3)]})
+	}
+	compileMetadata(4, ks, tables, columns, functions, aggregates, nil, nil, vNopLogger{})
+	t := ks.Tables["t"]
+	vAssert(t != nil, "C05/schema/table-is-listed")
+	if len(aggregates) == 1 {
+		a := ks.Aggregates["agg"]
+		vAssert(a != nil, "C05/schema/aggregate-is-listed")
+		if a != nil && len(functions) == 1 && aggregates[0].stateFunc == "f" {
+			vAssert(a.StateFunc.Name == "f", "C05/schema/aggregate-names-its-state-function")
+		}
+	}
+	vObserve("pk", len(t.PartitionKey))
+}
